@@ -6,19 +6,19 @@ namespace LokiModel.C03
 
 /-! ## `refresh` (a visit that replaces nothing) changes status flags only -/
 
-theorem rebuildSrc_cases (s : Src) (cs : List Node) :
-    rebuildSrc (some s) cs = some s ∨
-    (s.status = .valid ∧ rebuildSrc (some s) cs = some { s with status := .ichildren }) := by
+theorem rebuildSrc_cases (s : Src) (cs : List Node) (k : Nat) :
+    rebuildSrc (some s) cs k = some s ∨
+    (s.status = .valid ∧ rebuildSrc (some s) cs k = some { s with status := .ichildren }) := by
   unfold rebuildSrc
-  by_cases h : (decide (s.status = .valid) && cs.any childTriggers) = true
+  by_cases h : (decide (s.status = .valid) && (cs.any childTriggers || cs.length != k)) = true
   · right
     refine ⟨?_, ?_⟩
     · simp only [Bool.and_eq_true, decide_eq_true_eq] at h; exact h.1
     · simp only [h, ↓reduceIte]
   · left; simp only [h]; rfl
 
-theorem recover_status (info : Info) (s : Src) (st : Status) (e ie : Bool) (b v : Res) :
-    recover info { s with status := st } e ie b v = recover info s e ie b v := by
+theorem recover_status (info : Info) (s : Src) (st : Status) (e : Bool) (b v : Res) :
+    recover info { s with status := st } e b v = recover info s e b v := by
   unfold recover; rfl
 
 theorem out1_status (k : Kind) (s : Src) (st : Status) : out1 k { s with status := st } = out1 k s := rfl
@@ -30,11 +30,11 @@ theorem rebuildWith_shape (rs : Bool) (info : Info) (s : Src) (body els b' e' : 
   unfold rebuildWith
   split
   · split
-    · rcases rebuildSrc_cases s (body ++ els) with h | ⟨hv, h⟩
+    · rcases rebuildSrc_cases s (body ++ els) (body ++ els).length with h | ⟨hv, h⟩
       · exact ⟨s.status, by rw [h], Or.inl rfl⟩
       · exact ⟨.ichildren, by rw [h], Or.inr ⟨hv, rfl⟩⟩
     · exact ⟨s.status, rfl, Or.inl rfl⟩
-  · rcases rebuildSrc_cases s (b' ++ e') with h | ⟨hv, h⟩
+  · rcases rebuildSrc_cases s (b' ++ e') (body ++ els).length with h | ⟨hv, h⟩
     · exact ⟨s.status, by rw [h], Or.inl rfl⟩
     · exact ⟨.ichildren, by rw [h], Or.inr ⟨hv, rfl⟩⟩
 
@@ -119,10 +119,10 @@ theorem flagsOK_refresh (R : Render) (rs : Bool) : ∀ (n : Node) (ie : Bool),
       case cond =>
         obtain ⟨⟨⟨_, htb⟩, hte⟩, _⟩ := ht
         simp only [flagsOK, Bool.and_eq_true, hk]
-        refine ⟨⟨flagsOKL_refresh R rs body ie hvb htb, ?_⟩, ?_⟩
+        refine ⟨⟨flagsOKL_refresh R rs body false hvb htb, ?_⟩, ?_⟩
         · cases hei : info.elseif
-          · simp only [hei] at hte; exact flagsOKL_refresh R rs els ie hve hte
-          · simp only [hei, if_true, Bool.and_eq_true] at hte; exact flagsOKL_refresh R rs els true hve hte.2
+          · simp only [hei, Bool.false_eq_true, if_false] at hte; exact flagsOKL_refresh R rs els false hve hte
+          · simp only [hei, if_true] at hte; exact flagsOKL_refresh R rs els true hve hte
         · rcases hst' with rfl | rfl <;> simp
 theorem flagsOKL_refresh (R : Render) (rs : Bool) : ∀ (ns : List Node) (ie : Bool),
     allValidL ns = true → tilesLB R ie ns = true → flagsOKL (refreshL rs ns) = true
